@@ -628,8 +628,9 @@ def _dict_f13(d):
 
 ORDER_FLAGS = ('no_impure_assign_target_with_impure_value', 'no_dict_multi_impure',
                'no_shallow_impure_operand_before_nested_impure')
-HARD_FLAGS = ('no_annassign', 'no_with_nonname_target', 'no_slice_hoisted', 'no_multi_item_with_impure',
-              'no_multi_target_later_operands')
+# no_annassign (FN3), no_with_nonname_target (FN2) and plain slices (F15) were repaired in /repo (fix: commits)
+# and are generated again; no_slice_hoisted now only covers extended slices (F15b)
+HARD_FLAGS = ('no_slice_hoisted', 'no_multi_item_with_impure', 'no_multi_target_later_operands')
 
 
 def slice_hoisted(tree, cj):
@@ -638,11 +639,7 @@ def slice_hoisted(tree, cj):
     if isinstance(n, ast.Subscript):
       sl = n.slice
       if isinstance(sl, ast.Slice):
-        if asks(cj, n, 'slice', sl):
-          return True
-        for part in (sl.lower, sl.upper, sl.step):
-          if part is not None and not isinstance(part, ast.Name):
-            return True
+        pass   # F15 fixed: a plain slice is never hoisted as a whole any more
       elif isinstance(sl, ast.Tuple) and any(isinstance(e, ast.Slice) for e in sl.elts):
         return True
   return False
@@ -847,7 +844,7 @@ class Gen(object):
         self.lazy.add(kinds[draw(st.integers(0, len(kinds) - 1))])
     self.markers = draw(st.integers(0, 99)) < 40
     self.keep_order_shapes = family in ('partial', 'none', 'by_parent', 'by_child') or draw(st.integers(0, 99)) < 12
-    self.slices_ok = not asks(cj, _DUMMY_SUB, 'slice', _DUMMY_SUB.slice)
+    self.slices_ok = True   # F15 fixed: plain slices are handled under every configuration
     self.excluded = collections.Counter()
     self.nmark = 0
     # configurations that name only some edges: lazy operands are mostly nested, so that an edge
